@@ -32,6 +32,9 @@ pub fn enumerate(case: &Case, base: &RunOutput, pairs: bool) -> Vec<Case> {
         singles.push(Fault::HandlerPanic { actor: t, kth: k });
     }
     singles.push(Fault::StopPanic { actor: t });
+    if matches!(case.actors[t].spawn, SpawnSpec::Stream { .. }) {
+        singles.push(Fault::FinishPanic { actor: t });
+    }
     for j in 0..=polls.min(MAX_POSITIONS) {
         singles.push(Fault::CancelActor { actor: t, before_poll: j });
     }
